@@ -40,6 +40,9 @@ CONFIGS = [
     ((), (), ('x-amz-meta-', 'x-amz-')),
     ((), (), ('x-amz-', 'x-amz-meta-')),
     (('etag', 'content-type'), ('etag',), ('x-amz-meta-a', 'x-')),
+    (('host',), (), ()),            # 14: host itself declared (rule 8 accepts :authority in its place, the declaration does not)
+    ((), ('host',), ()),            # 15
+    (('host', 'x-amz-date'), (), ()),
 ]
 PRESENCE = [
     ('host', 'x-amz-date'),
@@ -77,6 +80,11 @@ def shapes(tier, seed):
         out.append(('req', 0, pi, ('x-amz-date',), 'slice'))
         out.append(('req', 1, pi, (':authority', 'x-amz-date'), 'slice'))
         out.append(('req', 1, pi, (':authority', 'content-type'), 'vec'))
+        # host declared as required while the request signs :authority in its place
+        for ci in (14, 15, 16):
+            for rt in ('slice', 'vec', 'ops'):
+                out.append(('req', ci, pi, (':authority', 'x-amz-date'), rt))
+                out.append(('req', ci, pi, (':authority', 'host', 'x-amz-date'), rt))
     return out
 
 
